@@ -91,6 +91,10 @@ func c15Case(w *rt.W, from, to, probe int64, fromNil, toNil bool, extraProbes ..
 	if tp != nil {
 		*tp = ordDate(probe - 1)
 	}
+	// the caller builds its next filter from the same (now changed) variables while the first one is still in use
+	if f2, err2 := date.FilterFromTo(fp, tp); err2 == nil && f2 != nil {
+		_ = f2.Contains(ordDate(probe))
+	}
 	for _, p := range probes {
 		w.Eval(1)
 		if got := f.Contains(ordDate(p)); got != contains(p) {
